@@ -30,6 +30,7 @@ SELFTEST = [
     {"mutation": "decode: checked_add replaced by wrapping `+`", "caught_by": "complete/total length computed with checked_add"},
     {"mutation": "encode: prefix computed from dst.len()", "caught_by": "encode/prefix is the varint of item.encoded_len()"},
     {"mutation": "consume_message_prefix: `remaining.len() < message_length` -> `remaining.len() + 1 < message_length`", "caught_by": "nopanic/consume_message_prefix: range index only when enough bytes remain"},
+    {"mutation": "(neutral, must stay silent) /verif/neutral/mux: 07.diff (debug assertions), `!(len <= max)` and `match checked_add(..) { Some(t) if src.len() >= t .. }`", "caught_by": "silent"},
 ]
 
 
@@ -44,38 +45,34 @@ def check(ctx):
 
 def _check(ctx):
     prog = ctx.prog
-    dec = ctx.body(PC, r"^prost_codec::<Codec as asynchronous_codec::Decoder>::decode$")
-    enc = ctx.body(PC, r"^prost_codec::<Codec as asynchronous_codec::Encoder>::encode$")
+    dec = lib_mux.canon_args(ctx.body(PC, r"^prost_codec::<Codec as asynchronous_codec::Decoder>::decode$"), ["self", "src"])
+    enc = lib_mux.canon_args(ctx.body(PC, r"^prost_codec::<Codec as asynchronous_codec::Encoder>::encode$"), ["self", "item", "dst"])
     wd = "%s:%d" % (dec.file, dec.line)
     vs = dec.call_sites(r"^unsigned_varint::decode::usize$")
     ctx.floor("limit", "varint length decode", vs, 1, exact=True)
+    if not vs:
+        raise mir.RuleError("prost_codec decode: no unsigned_varint::decode::usize call")
     V = render(dec.site_expr(vs[0]))
     ctx.ob("limit", "the length is decoded from the read buffer without consuming it", V == "unsigned_varint::decode::usize(<asynchronous_codec::BytesMut as std::ops::Deref>::deref(src))", vs[0].loc(), V)
     LEN, REM = V + "@Ok.0.0", V + "@Ok.0.1"
     VARLEN = "SubWithOverflow(asynchronous_codec::BytesMut::len(src), core::slice::len(%s)).0" % REM
-    # ---- the limit test
-    tests = []
-    for bi in sorted(dec.live):
-        info = dec.switch_info(bi)
-        if info and info[0][0] == "bin" and "max_message_len_bytes" in render(info[0]):
-            tests.append((bi, info[0], info[1]))
+    # ---- the limit test (any polarity / operand order / `!`; one helper level)
+    lrel = lib_mux.rel_edges(dec, lambda e: True, lambda e: render(e) == "self.max_message_len_bytes", prog)
+    tests = sorted({x["switch"] for x in lrel})
     ctx.floor("limit", "comparison with max_message_len_bytes", tests, 1, exact=True)
-    acc = set()
-    for bi, cond, labs in tests:
-        a, b = render(cond[2]), render(cond[3])
-        op = cond[1] if b == "self.max_message_len_bytes" else {"Lt": "Gt", "Gt": "Lt", "Le": "Ge", "Ge": "Le"}.get(cond[1])
-        l = a if b == "self.max_message_len_bytes" else b
-        lim = b if b == "self.max_message_len_bytes" else a
-        ctx.ob("limit", "rejection relation is `len > max_message_len_bytes`", op in ("Gt", "Le") and lim == "self.max_message_len_bytes", mir.Site(dec, bi).loc(), "%s(len, %s)" % (op, lim))
-        ctx.ob("limit", "the tested value is the declared length", l == LEN, mir.Site(dec, bi).loc(), l[-60:])
-        for t, ls in labs.items():
-            if (op == "Gt" and "false" in ls) or (op == "Le" and "true" in ls):
-                acc.add((bi, t))
-            else:
-                z = lib_mux.zero_assigns(dec)
-                ends = sorted({z[x][:28] for x in z if x in dec.reachable([t])})
-                eff = [s for s in dec.call_sites(r"Buf>::advance$|BytesMut::(split_to|split_off|reserve|advance)$|Message::decode$") if s.bb in dec.reachable([t])]
-                ctx.ob("limit", "an oversize declaration reaches only Err, touching nothing", ends == ["std::result::Result::Err{0: "] and not eff, mir.Site(dec, bi).loc(), "results %s, effects %d" % (ends, len(eff)))
+    accrel = sorted({x["rel"] for x in lrel if x["rel"] in ("le", "lt")})
+    ctx.ob("limit", "rejection relation is `len > max_message_len_bytes`", accrel == ["le"], mir.Site(dec, tests[0]).loc() if tests else wd, "accepting edge establishes `len %s max_message_len_bytes`" % accrel)
+    for x in lrel:
+        if x["rel"] in ("le", "lt"):
+            ctx.ob("limit", "the tested value is the declared length", render(x["lhs"]) == LEN, mir.Site(dec, x["switch"]).loc(), render(x["lhs"])[-60:])
+    acc = lib_mux.edges_with(lrel, {"le"})
+    z = lib_mux.zero_assigns(dec)
+    for x in lrel:
+        if x["rel"] in ("gt", "ge") and x["via"] is None:
+            t = x["edge"][1]
+            ends = sorted({("Err" if lib_mux.is_err_result(z[y]) else z[y][:28]) for y in z if y in dec.reachable([t])})
+            eff = [s for s in dec.call_sites(r"Buf>::advance$|BytesMut::(split_to|split_off|reserve|advance)$|Message::decode$") if s.bb in dec.reachable([t])]
+            ctx.ob("limit", "an oversize declaration reaches only Err, touching nothing", ends == ["Err"] and not eff, mir.Site(dec, x["switch"]).loc(), "results %s, effects %d" % (ends, len(eff)))
     z = lib_mux.zero_assigns(dec)
     ok_edge = lib.switch_edges_on_site(dec, vs[0], {"Ok"}, r"^discr\(unsigned_varint::decode::usize\(")
     none = sorted(b for b, r in z.items() if r == "std::result::Result::Ok{0: std::option::Option::None{}}")
@@ -106,15 +103,41 @@ def _check(ctx):
     ctx.ob("limit", "the limit is set only at construction (new / derived Clone)", not wr and all(v in (("new", "max_message_len_bytes"), ("clone", "std::clone::impls::clone(self.max_message_len_bytes)")) for v in vals) and ("new", "max_message_len_bytes") in vals, wd, str(vals))
 
     # ---- consume only a complete message
-    io_ = [bi for bi in sorted(dec.live) if dec.switch_info(bi) and render(dec.switch_info(bi)[0]).startswith("std::option::Option::is_none_or(")]
-    ctx.floor("complete", "completeness test", io_, 1, exact=True)
-    cond = dec.switch_info(io_[0])[0]
-    tot = render(cond[2][0])
-    ctx.ob("complete", "total length computed with checked_add", tot == "core::num::checked_add(%s, %s)" % (LEN, VARLEN), mir.Site(dec, io_[0]).loc(), tot[-150:])
-    cl = lib.closure_of(prog, dec, cond)
-    cz = lib_mux.zero_assigns(cl) if cl else {}
-    ctx.ob("complete", "completeness closure is `src.len() < total`", sorted(cz.values()) == ["Lt(asynchronous_codec::BytesMut::len(^*src), total_length)"], "%s:%d" % (cl.file, cl.line) if cl else wd, str(sorted(cz.values())))
-    full = {(io_[0], t) for t, ls in dec.switch_info(io_[0])[1].items() if "false" in ls}
+    SRCLEN = "asynchronous_codec::BytesMut::len(src)"
+    TOT = "core::num::checked_add(%s, %s)" % (LEN, VARLEN)
+    TOT2 = "core::num::checked_add(%s, %s)" % (VARLEN, LEN)
+    full, forms = set(), []
+    # (a) `total.is_none_or(|t| src.len() < t)` false edge / `total.is_some_and(|t| src.len() >= t)` true edge
+    for bi in sorted(dec.live):
+        info = dec.switch_info(bi)
+        c = info[0] if info else None
+        if c is None or c[0] != "call" or len(c[2]) != 2 or render(c[2][0]) not in (TOT, TOT2):
+            continue
+        nm = mir.strip_generics(c[1]).split("::")[-1]
+        cl = lib.closure_of(prog, dec, c)
+        if cl is None or nm not in ("is_none_or", "is_some_and"):
+            continue
+        lib_mux.canon_args(cl, ["env", "total"])
+        cm = [lib_mux._cmp_of(cl.rvalue_expr(d[3])) for d in cl.defs.get(0, []) if d[0] == "stmt"]
+        rel = None
+        if len(cm) == 1 and cm[0]:
+            r_, x_, y_ = cm[0]
+            if render(y_) == "total" and re.match(r"^asynchronous_codec::BytesMut::len\(\^\*?\w+\)$", render(x_)):
+                rel = r_
+            elif render(x_) == "total" and re.match(r"^asynchronous_codec::BytesMut::len\(\^\*?\w+\)$", render(y_)):
+                rel = lib_mux._FLIP[r_]
+        forms.append("%s(|total| src.len() %s total)" % (nm, rel))
+        for t, ls in info[1].items():
+            if (nm == "is_none_or" and "false" in ls and rel == "lt") or (nm == "is_some_and" and "true" in ls and rel == "ge"):
+                full.add((bi, t))
+    # (b) explicit `match len.checked_add(varint_len) { Some(total) if src.len() >= total .. }`
+    for T in (TOT, TOT2):
+        ge = lib_mux.edges_with(lib_mux.rel_edges(dec, lambda e: render(e) == SRCLEN, lambda e, T=T: render(e) == T + "@Some.0"), {"ge"})
+        if ge:
+            forms.append("src.len() >= checked_add(..)@Some.0")
+            full |= ge
+    ctx.ob("complete", "total length computed with checked_add", bool(forms), wd, "completeness test(s): %s" % forms)
+    ctx.ob("complete", "completeness closure is `src.len() < total`", bool(full), wd, "edge(s) establishing src.len() >= len + varint_len: %d (%s)" % (len(full), forms))
     adv = dec.call_sites(r"Buf>::advance$|Buf::advance$|BytesMut::advance$")
     spl = dec.call_sites(r"BytesMut::split_to$")
     ctx.floor("complete", "advance", adv, 1, exact=True)
@@ -136,12 +159,17 @@ def _check(ctx):
         ctx.ob("complete", "the message is decoded from exactly the split bytes", r == "core::slice::index::index(<asynchronous_codec::BytesMut as std::ops::Deref>::deref(asynchronous_codec::BytesMut::split_to(src, %s)), std::ops::RangeFull::RangeFull{})" % LEN, s.loc(), r[-120:])
     for b, r in z.items():
         if r.startswith("std::result::Result::Ok{0: std::option::Option::Some{"):
-            ctx.ob("complete", "Ok(Some(m)) returns prost's decoding of those bytes", bool(pd) and r.startswith("std::result::Result::Ok{0: std::option::Option::Some{0: <std::result::Result as std::ops::Try>::branch(std::result::Result::map_err(prost::Message::decode(") and r.endswith("@Continue.0}}"), wd, r[-60:])
+            vals = [dec.rvalue_expr(d[3]) for d in dec.defs.get(0, []) if d[0] == "stmt" and d[1] == b]
+            inner = dict(dict(vals[0][4])["0"][4])["0"] if vals and vals[0][0] == "agg" and dict(vals[0][4])["0"][0] == "agg" else None
+            core = lib_mux._core_call(inner) if inner is not None else None
+            ctx.ob("complete", "Ok(Some(m)) returns prost's decoding of those bytes", bool(pd) and core is not None and core[3] == pd[0].bb, wd, r[-60:])
 
     # ---- encoder
     we = "%s:%d" % (enc.file, enc.line)
     pre = enc.call_sites(r"^unsigned_varint::encode::usize$")
     ctx.floor("encode", "varint prefix", pre, 1, exact=True)
+    if not pre:
+        raise mir.RuleError("prost_codec encode: no unsigned_varint::encode::usize call")
     ctx.ob("encode", "prefix is the varint of item.encoded_len()", render(enc.site_expr(pre[0])).startswith("unsigned_varint::encode::usize(prost::Message::encoded_len(item), "), pre[0].loc(), render(enc.site_expr(pre[0]))[:90])
     ext = enc.call_sites(r"BytesMut::extend_from_slice$|BufMut>::put_slice$|BufMut>::put$")
     body_ = enc.call_sites(r"prost::Message::encode$")
@@ -152,11 +180,11 @@ def _check(ctx):
     ze = lib_mux.zero_assigns(enc)
     for b, r in ze.items():
         if r == "std::result::Result::Ok{0: tuple{}}":
-            ctx.ob("encode", "Ok only if the body was encoded", bool(body_) and enc.must_pass_edges(b, lib.switch_edges_on_site(enc, body_[0], {"Continue"})), we, "dominated by the `?`-Continue edge of item.encode(dst)")
+            ctx.ob("encode", "Ok only if the body was encoded", bool(body_) and enc.must_pass_edges(b, lib_mux.ok_edges(enc, body_[0])), we, "dominated by the `?`-Continue edge of item.encode(dst)")
     ctx.ob("encode", "encoder and decoder use the same varint width (usize)", bool(pre) and bool(vs), we, "encode::usize / decode::usize")
 
     # ---- no panic
-    cmp_ = ctx.body(PC, r"^prost_codec::consume_message_prefix$")
+    cmp_ = lib_mux.canon_args(ctx.body(PC, r"^prost_codec::consume_message_prefix$"), ["buf"])
     inv, seen = lib.panic_inventory(prog, PC, [dec, cmp_], depth=1)
     lib.check_inventory(ctx, "nopanic", "decode + consume_message_prefix", inv, {
         "buf": (2, "src.advance(varint_len) and src.split_to(len) on the `src.len() >= len + varint_len` edge"),
@@ -172,9 +200,9 @@ def _check(ctx):
                 ok = m is not None
                 if ok:
                     base, end = m.group(1), m.group(2)
-                    ctx.guarded("nopanic", "consume_message_prefix: range index only when enough bytes remain", s,
-                                lambda c, rr, l, base=base, end=end: (l == "false" and rr == "Lt(core::slice::len(%s), %s)" % (base, end)) or (l == "true" and rr == "Ge(core::slice::len(%s), %s)" % (base, end)),
-                                "remaining.len() >= message_length")
+                    ge = lib_mux.edges_with(lib_mux.rel_edges(cmp_, lambda e, base=base: render(e) == "core::slice::len(%s)" % base, lambda e, end=end: render(e) == end), {"ge", "gt"})
+                    okg = bool(ge) and cmp_.must_pass_edges(s.bb, ge)
+                    ctx.ob("nopanic", "consume_message_prefix: range index only when enough bytes remain", okg, s.loc(), ("guard present on all paths: " if okg else "a path reaches this site without the guard: ") + "remaining.len() >= message_length")
                 else:
                     ctx.ob("nopanic", "consume_message_prefix: range index only when enough bytes remain", False, s.loc(), r[-100:])
             else:
